@@ -923,9 +923,23 @@ def make_preempt_tracer(env):
                 sched.switch_point()
         return local
 
+    noise = bool(env.knobs.get('global_random_noise'))
+    shuffle_suffix = os.path.join('zope', 'testrunner', 'shuffle.py')
+
+    def noisy(frame, event, arg):
+        # stand-in for a foreign thread that draws from the module-level generator of `random`
+        # between two lines of the runner's shuffling
+        if event == 'line' and rng.random() < 0.5:
+            sched.probe('global_random_draws')
+            random.random()
+        return noisy
+
     def tracer(frame, event, arg):
-        if frame.f_code.co_filename.endswith(suffix):
+        fn = frame.f_code.co_filename
+        if p and fn.endswith(suffix):
             return local
+        if noise and fn.endswith(shuffle_suffix):
+            return noisy
         return None
     return tracer
 
@@ -1625,7 +1639,8 @@ def execute(spec, options, sched_mode=None, knobs=None, defaults=None, label='ma
     res.verdict = None
     res.hang = None
     outer_trace = sys.gettrace()
-    if env.line_preempt:
+    tracing = bool(env.line_preempt or knobs.get('global_random_noise'))
+    if tracing:
         _SYS_SETTRACE(make_preempt_tracer(env))
     try:
         try:
@@ -1657,7 +1672,7 @@ def execute(spec, options, sched_mode=None, knobs=None, defaults=None, label='ma
             res.raised = (type(e).__name__, str(e)[:300],
                           traceback.format_exc()[-1500:])
     finally:
-        if env.line_preempt:
+        if tracing:
             _SYS_SETTRACE(outer_trace)
         res.stdout_after = sys.stdout
         res.stderr_after = sys.stderr
